@@ -22,6 +22,7 @@ import (
 
 	"github.com/lni/dragonboat/v4/client"
 	pb "github.com/lni/dragonboat/v4/raftpb"
+	hooks "github.com/lni/dragonboat/v4/verifhooks/c13"
 	"verif/harness/vh"
 )
 
@@ -419,6 +420,82 @@ func exact(b []byte) []byte {
 	return out
 }
 
+// marshalDirty runs a MarshalTo three times: into a 0xFF filled buffer of room
+// bytes, into a random filled buffer of EXACTLY the number of bytes written, and
+// into a zeroed buffer. The library marshals into reused buffers (tan write
+// buffers, the scratch buffer of SaveSnapshots, the TCP send buffer), so the
+// bytes must not depend on what the buffer held before. Returns the bytes of
+// the first run and a description of the first disagreement ("" = none).
+func marshalDirty(mt func([]byte) (int, error), room int, cn func([]byte) []byte) ([]byte, string) {
+	a := bytes.Repeat([]byte{0xFF}, room)
+	k, err := mt(a)
+	must(err)
+	a = a[:k]
+	rnd := vh.NewRand(uint64(k)*2654435761 + 17)
+	b := rnd.Bytes(k)
+	for i := range b {
+		b[i] |= 0x80 // stale continuation bits are the nastiest leftovers
+	}
+	k2, err := mt(b)
+	must(err)
+	z := make([]byte, room)
+	k3, err := mt(z)
+	must(err)
+	ca := cn(a)
+	if k2 != k || k3 != k {
+		return a, fmt.Sprintf("MarshalTo wrote %d / %d / %d bytes into a 0xFF filled / random filled / zeroed buffer", k, k2, k3)
+	}
+	if !bytes.Equal(ca, cn(z[:k3])) {
+		return a, "MarshalTo into a 0xFF filled buffer differs from MarshalTo into a zeroed buffer: " + firstDiff(ca, cn(z[:k3]))
+	}
+	if !bytes.Equal(ca, cn(b[:k2])) {
+		return a, "MarshalTo into a random filled buffer of exactly the encoded size differs: " + firstDiff(ca, cn(b[:k2]))
+	}
+	return a, ""
+}
+
+func firstDiff(x, y []byte) string {
+	for i := 0; i < len(x) && i < len(y); i++ {
+		if x[i] != y[i] {
+			return fmt.Sprintf("byte %d is %#02x vs %#02x", i, x[i], y[i])
+		}
+	}
+	return fmt.Sprintf("lengths %d vs %d", len(x), len(y))
+}
+
+// one TCP connection object for the whole run: SendMessageBatch marshals into
+// the connection's reused payload buffer.
+var sendConn struct {
+	c    *bufConn
+	conn interface{ SendMessageBatch(pb.MessageBatch) error }
+}
+
+// sendOverReusedConn sends a buffer-dirtying batch and then b over the same
+// TCPConnection and returns the payload bytes of b's frame as read back by the
+// real frame reader.
+func sendOverReusedConn(b *pb.MessageBatch) (payload []byte, problem string) {
+	if sendConn.conn == nil {
+		sendConn.c = newBufConn(nil)
+		sendConn.conn = hooks.NewTCPConnection(sendConn.c, false)
+	}
+	p := vh.Catch(func() {
+		dirty := pb.MessageBatch{SourceAddress: string(bytes.Repeat([]byte{0xFF}, 16384+b.Size())), BinVer: ^uint32(0), DeploymentId: ^uint64(0)}
+		must(sendConn.conn.SendMessageBatch(dirty))
+		sendConn.c.wr.Reset()
+		must(sendConn.conn.SendMessageBatch(*b))
+	})
+	stream := append([]byte{}, sendConn.c.wr.Bytes()...)
+	sendConn.c.wr.Reset()
+	if p != "" {
+		return nil, "SendMessageBatch failed: " + p
+	}
+	rd, got := readFrame(stream, false, 2*1024*1024)
+	if len(rd) < 2 || rd[:2] != "ok" {
+		return nil, "frame written by SendMessageBatch not delivered: " + rd
+	}
+	return got, ""
+}
+
 // decodeObs unmarshals data into a fresh value and returns the observation.
 func decodeObs(ty string, data []byte) (string, codec) {
 	v := fresh(ty)
@@ -444,6 +521,7 @@ func runProto(id string, f []string, line string, obs *vh.LineWriter, st *vh.Sta
 		v := readValue(ty, &tr{t: f[2:]})
 		var b []byte
 		var size, up int
+		var dirtyDiff string
 		hasUp := false
 		p := vh.Catch(func() {
 			size = v.Size()
@@ -455,14 +533,11 @@ func runProto(id string, f []string, line string, obs *vh.LineWriter, st *vh.Sta
 			if hasUp && up > n {
 				n = up
 			}
-			buf := make([]byte, n+8)
-			k, err := v.MarshalTo(buf)
-			must(err)
-			b = buf[:k]
+			b, dirtyDiff = marshalDirty(v.MarshalTo, n+8, func(x []byte) []byte { return canon(ty, x) })
 			m, err := v.Marshal()
 			must(err)
-			if !bytes.Equal(canon(ty, m), canon(ty, b)) {
-				panic("Marshal and MarshalTo disagree")
+			if dirtyDiff == "" && !bytes.Equal(canon(ty, m), canon(ty, b)) {
+				dirtyDiff = "Marshal() and MarshalTo into a dirty buffer disagree: " + firstDiff(canon(ty, m), canon(ty, b))
 			}
 		})
 		if p != "" {
@@ -478,6 +553,17 @@ func runProto(id string, f []string, line string, obs *vh.LineWriter, st *vh.Sta
 		}
 		obs.Printf("%s PB ENC %s SIZE %d%s DEC %s\n", id, vh.Hex(cb), size, ups, dec)
 		// monitor (implementation only)
+		if dirtyDiff != "" {
+			st.Violation(id, ty+" MarshalTo: the encoding depends on stale buffer content: "+dirtyDiff)
+		}
+		if bt, ok := v.(*pb.MessageBatch); ok {
+			sent, problem := sendOverReusedConn(bt)
+			if problem != "" {
+				st.Violation(id, "bt: "+problem)
+			} else if m, err := bt.Marshal(); err == nil && !bytes.Equal(canon(ty, sent), canon(ty, m)) {
+				st.Violation(id, "bt: SendMessageBatch over a connection whose send buffer was used before wrote different bytes than Marshal(): "+firstDiff(canon(ty, sent), canon(ty, m)))
+			}
+		}
 		if dec != "ok "+vh.Hex(cb) {
 			st.Violation(id, ty+" roundtrip: re-encoding of decode(encode v) differs: "+dec)
 		} else if !valueEqual(ty, v, back) {
@@ -503,12 +589,10 @@ func runProto(id string, f []string, line string, obs *vh.LineWriter, st *vh.Sta
 		u.Snapshot = r.sn()
 		var b []byte
 		var up int
+		var dirtyDiff string
 		p := vh.Catch(func() {
 			up = u.SizeUpperLimit()
-			buf := make([]byte, up+4096)
-			n, err := u.MarshalTo(buf)
-			must(err)
-			b = buf[:n]
+			b, dirtyDiff = marshalDirty(u.MarshalTo, up+4096, canonUpdate)
 		})
 		if p != "" {
 			obs.Printf("%s UPD PANIC\n", id)
@@ -518,6 +602,9 @@ func runProto(id string, f []string, line string, obs *vh.LineWriter, st *vh.Sta
 		cb := canonUpdate(b)
 		dec, back := updDecodeObs(b)
 		obs.Printf("%s UPD ENC %s UPPER %d DEC %s\n", id, vh.Hex(cb), up, dec)
+		if dirtyDiff != "" {
+			st.Violation(id, "update MarshalTo: the record depends on stale buffer content (tan reuses its write buffer): "+dirtyDiff)
+		}
 		if dec != "ok "+vh.Hex(cb) {
 			st.Violation(id, "update roundtrip: re-encoding of decode(encode u) differs: "+dec)
 		} else if !updateEqual(&u, back) {
